@@ -48,6 +48,10 @@ def run(ctx):
     ctx.alias = {'R1': 'R7'}
     c05.r1_selected_set(ctx)
     ctx.alias = {}
+    # the six encodings are views of ONE document: exporting in one encoding leaves the document as it was for the next
+    from . import shared
+    shared.effect_free(ctx, 'R8', [f'{N.PUBLIC}.dumps'],
+                       'an export that writes to the document changes what the next encoding of the same document shows')
 
 
 def _replace_chain(ctx, f, node):
